@@ -54,8 +54,37 @@ func sameExpr(a, b ssa.Value, depth int) bool {
 		if okx && oky && bx.Name() == by.Name() && bx.Name() == "len" {
 			return sameExpr(x.Call.Args[0], y.Call.Args[0], depth-1)
 		}
+		// two calls of the same pure function (no stores, no calls, no loads) with the same arguments
+		if fx, fy := x.Call.StaticCallee(), y.Call.StaticCallee(); fx != nil && fx == fy && pureArith(fx) && len(x.Call.Args) == len(y.Call.Args) {
+			for i := range x.Call.Args {
+				if !sameExpr(x.Call.Args[i], y.Call.Args[i], depth-1) {
+					return false
+				}
+			}
+			return true
+		}
 	}
 	return false
+}
+
+// pureArith: the function only computes on its parameters (no memory access, no calls).
+func pureArith(f *ssa.Function) bool {
+	if f.Blocks == nil {
+		return false
+	}
+	ok := true
+	allInstrs(f, func(in ssa.Instruction) {
+		switch x := in.(type) {
+		case *ssa.BinOp, *ssa.Convert, *ssa.ChangeType, *ssa.Return, *ssa.If, *ssa.Jump, *ssa.Phi, *ssa.DebugRef:
+		case *ssa.UnOp:
+			if x.Op == token.MUL || x.Op == token.ARROW {
+				ok = false
+			}
+		default:
+			ok = false
+		}
+	})
+	return ok
 }
 
 type ext struct {
@@ -556,6 +585,54 @@ func runC03(p *P, r *R) {
 	c03Wiring(p, r)
 	c03Guards(p, r, fr)
 	c03Tightness(p, r, fr)
+	c03ObjectSize(p, r)
+}
+
+// c03ObjectSize (R03.8): the mapping side derives the geometry from the size of the backing object (queue split point
+// = size/2, buffer capacity = size), so a creator must make the object exactly as large as the region it maps and
+// lays out: in every function that sizes an object (Truncate / Ftruncate) and maps it, the two lengths are the same
+// value up to integer conversions.
+func c03ObjectSize(p *P, r *R) {
+	mTrunc := p.mCall("(*os.File).Truncate", "syscall.Ftruncate", "golang.org/x/sys/unix.Ftruncate")
+	mMmap := p.mCall("syscall.Mmap", "golang.org/x/sys/unix.Mmap")
+	n := 0
+	for _, f := range p.fnList {
+		truncs, maps := findInstrs(f, mTrunc), findInstrs(f, mMmap)
+		if len(truncs) == 0 || len(maps) == 0 {
+			continue
+		}
+		fn := p.fname(f)
+		r.Scope[fn] = true
+		for _, ti := range truncs {
+			n++
+			tl := stripConv(ti.(*ssa.Call).Call.Args[1])
+			ok := false
+			detail := ""
+			for _, mi := range maps {
+				if !p.reaches(ti, mi, nil) {
+					continue
+				}
+				ml := stripConv(mi.(*ssa.Call).Call.Args[2])
+				same := sameExpr(ml, tl, 4)
+				if ph, isPhi := ml.(*ssa.Phi); isPhi && !same {
+					// the mapping length is merged with the non-creating branch (size read back from the object)
+					for _, e := range ph.Edges {
+						if sameExpr(e, tl, 4) {
+							same = true
+						}
+					}
+				}
+				if same {
+					ok = true
+				} else {
+					detail = "object sized with " + p.descr(tl, 3) + " but mapped with " + p.descr(ml, 3)
+				}
+			}
+			r.ob("R03.8", fn+": the backing object is sized with the very length that is mapped and laid out", p.ipos(ti), ok, true,
+				"the peer derives the layout from the object's size: %s", detail)
+		}
+	}
+	r.count("R03.8", "functions that size and map a backing object", n, 4)
 }
 
 func sym2(s string) string {
